@@ -226,6 +226,11 @@ bool comp_init(zckCtx *zck) {
             zck->chunk_auto_max = (zck->buzhash_bitmask + 1) * 4;
             if(zck->chunk_auto_max > zck->chunk_max_size)
                 zck->chunk_auto_max = zck->chunk_max_size;
+            /* A configured minimum above the automatic maximum must raise it:
+             * the boundary forced at the automatic maximum would otherwise be
+             * refused as too small and nothing would ever be consumed */
+            if(zck->chunk_auto_max < zck->chunk_min_size)
+                zck->chunk_auto_max = zck->chunk_min_size;
             zck_log(ZCK_LOG_DEBUG, "Setting automatic maximum chunk size to %llu",
                     (long long unsigned) zck->chunk_auto_max);
             /* A small maximum chunk size must not end up below the automatic
